@@ -614,6 +614,8 @@ type jfn struct {
 
 var javaTable = []jfn{
 	{3, "com.example.function03 (source.java:3)", ap.Line{Func: "com.example.function03", Sys: "com.example.function03", File: "source.java", Line: 3}},
+	// the same function at another line: two locations, one function
+	{6, "com.example.function03 (source.java:41)", ap.Line{Func: "com.example.function03", Sys: "com.example.function03", File: "source.java", Line: 41}},
 	{4, "com.example.f4 (Source4.java:0)", ap.Line{Func: "com.example.f4", Sys: "com.example.f4", File: "Source4.java"}},
 	{5, "libfoo (/usr/lib/libfoo.so)", ap.Line{Func: "libfoo", Sys: "libfoo", File: "libfoo.so"}},
 	{0x1d, "[0x7f00, 0x7f10) generated stub/JIT", ap.Line{Func: "STUB", Sys: "STUB"}},
